@@ -79,6 +79,13 @@ def FS.mkdirAll (fs : FS) (p : Bytes) : FS × Option FErr :=
         | none => go (fs ++ [(q, .dir)]) qs
   go fs (prefixesOf p)
 
+/-- what is wrong with `q` as a parent directory, if anything -/
+def FS.parentProblem (fs : FS) (q : Bytes) : Option FErr :=
+  match fs.kindOf q with
+  | some .dir => none
+  | some (.file _) => some FErr.notDir
+  | none => some FErr.notExist
+
 /-- `os.Create` + `Close`: an empty regular file; the parent must be a directory -/
 def FS.create (fs : FS) (p : Bytes) : FS × Option FErr :=
   match pathRefusal p with
@@ -86,10 +93,7 @@ def FS.create (fs : FS) (p : Bytes) : FS × Option FErr :=
   | none =>
     let pres := prefixesOf p
     let parents := pres.dropLast
-    let bad := parents.findSome? (fun q => match fs.kindOf q with
-      | some .dir => none
-      | some (.file _) => some FErr.notDir
-      | none => some FErr.notExist)
+    let bad := parents.findSome? fs.parentProblem
     match bad with
     | some e => (fs, some e)
     | none =>
